@@ -323,7 +323,7 @@ for nl, tv in shapes():
         rs2 = run(r.st, 'LockManager::from_serializable', [r.retval])
         ck.note_path_problem(rs2, f'from_serializable locks={nl} tx_locks={tv}')
         for r2 in rs2:
-            wit = lambda m, tb=tb: {'op': 'serialize_restore', 'table': tb.dump(m)}
+            wit = lambda m, tb=tb, r2=r2: {'op': 'serialize_restore', 'table': tb.dump(m), 'clock': [mval(m, c_) for c_ in r2.st.env.get('clock_readings', [])]}
             if r2.status != 'return':
                 continue
             r2.st.roots['lm'] = r2.retval
